@@ -21,7 +21,10 @@ CONSTANTS R,          \* number of regions
           NVox,       \* NVox[r][b] voxel counts (generated)
           InitSV,     \* initial supervoxel of each region (generated)
           InitMax,    \* largest label ingested
-          MaxOps      \* depth bound
+          MaxOps,     \* depth bound
+          Classes1,   \* down-res: Classes1[c] = the 8 regions (0 = unwritten) under a level-1 voxel of class c
+          Classes2,   \* Classes2[c] = the 8 level-1 classes (0 = unwritten) under a level-2 voxel of class c
+          WithOverwrite \* include mutating voxel writes in Next
 
 VARIABLES sv, mp, nxt, depth, last
 
@@ -103,6 +106,24 @@ Overwrite(WR, x) ==
     /\ nxt' = IF x > nxt THEN x ELSE nxt
     /\ last' = [op |-> "overwrite", regions |-> WR, label |-> x]
 
+(***************************************************************************)
+(* Documented down-sampling (property C14): a voxel at level n+1 is the     *)
+(* most frequent non-zero label among the 2x2x2 voxels beneath it, ties to  *)
+(* the smaller label, all zero gives zero.  Levels are derived, never       *)
+(* stored: "always up to date" is definitional here; the harness compares   *)
+(* the levels the server stores with these.                                 *)
+(***************************************************************************)
+Vote(q) ==
+    LET nz == {q[i] : i \in 1..8} \ {0}
+        cnt(l) == Cardinality({i \in 1..8 : q[i] = l})
+    IN IF nz = {} THEN 0
+       ELSE CHOOSE l \in nz : \A m \in nz : cnt(l) > cnt(m) \/ (cnt(l) = cnt(m) /\ l <= m)
+SVAt(r) == IF r = 0 THEN 0 ELSE sv[r]
+Level1(c) == Vote([i \in 1..8 |-> SVAt(Classes1[c][i])])
+Level1At(c) == IF c = 0 THEN 0 ELSE Level1(c)
+Level2(c) == Vote([i \in 1..8 |-> Level1At(Classes2[c][i])])
+BodyOfSV(s) == IF s = 0 THEN 0 ELSE mp[s]
+
 NonEmptyProperSubsets(S) == {T \in SUBSET S : T # {} /\ T # S}
 
 Next ==
@@ -112,6 +133,7 @@ Next ==
        \/ \E B \in Bodies : \E C \in NonEmptyProperSubsets(SVsOf(B)) : Cleave(B, C)
        \/ \E s \in SVs : \E S \in NonEmptyProperSubsets(RegionsOfSV(s)) : SplitSV(s, S)
        \/ \E old \in Bodies : Renumber(old, nxt + 5)
+       \/ WithOverwrite /\ \E r \in Regions : Overwrite({r}, nxt + 7)
 
 Spec == Init /\ [][Next]_vars
 
@@ -127,7 +149,7 @@ Inv_C08_Conservation ==
 
 \* operations only move voxels: the background never changes, and the partition into regions
 \* carrying voxels is preserved
-Act_C08_OnlyMoves == [][{r \in Regions : sv'[r] = 0} = {r \in Regions : sv[r] = 0}]_vars
+Act_C08_OnlyMoves == [][last'.op # "overwrite" => {r \in Regions : sv'[r] = 0} = {r \in Regions : sv[r] = 0}]_vars
 
 \* allocated labels are larger than every label present
 Inv_C12_NewLabelsFresh == \A s \in SVs : s <= nxt /\ \A b \in Bodies : b <= nxt
@@ -153,5 +175,7 @@ Obs ==
                                   counts |-> [j \in 1..Cardinality({s \in SVsOf(b) : SVCountInBlock(s, blk) > 0}) |->
                                                 LET s == SetToSeq({x \in SVsOf(b) : SVCountInBlock(x, blk) > 0})[j] IN
                                                 [sv |-> s, n |-> SVCountInBlock(s, blk)]]]]]],
+     lvl1 |-> [c \in 1..Len(Classes1) |-> Level1(c)],
+     lvl2 |-> [c \in 1..Len(Classes2) |-> Level2(c)],
      svsizes |-> [i \in 1..Cardinality(SVs) |-> [sv |-> SetToSeq(SVs)[i], size |-> SVSize(SetToSeq(SVs)[i])]]]
 =============================================================================
